@@ -36,100 +36,106 @@ func TestConcurrentPresentations(t *testing.T) {
 		}
 		pre := rapid.IntRange(0, 1<<m-1).Draw(rt, "pre")
 		forged := rapid.IntRange(0, 3).Draw(rt, "forged")
-		w, err := sstcp.NewWorld(class, seed, seed^0xA5A5)
-		if err != nil {
-			rt.Fatalf("SIG=%s world: %v", sigHarness, err)
-		}
-		p := plan{Class: class, Seed: seed}
-		wire := make([][]byte, m)
-		for i := range wire {
-			_, link, err := w.Dial(p.target(i), sstcp.Bytes(i*7, seed+uint64(i)))
+		if v := guarded(m*(k+forged)+10, func() string {
+			return fmt.Sprintf("concurrent case class=%v m=%d k=%d pre=%b forged=%d", class, m, k, pre, forged)
+		}, func(failCase func(string, ...any)) {
+			w, err := sstcp.NewWorld(class, seed, seed^0xA5A5)
 			if err != nil {
-				rt.Fatalf("SIG=%s dial: %v", sigHarness, err)
+				failCase("SIG=%s world: %v", sigHarness, err)
 			}
-			s, ok := w.Relay(sstcp.Join(link.C.Written()))
-			if !ok {
-				rt.Fatalf("SIG=%s relay refused a genuine request", sigHarness)
-			}
-			wire[i] = s
-		}
-		fixedEnd := w.ServerFixedEnd()
-		server := w.NewServer()
-		present := func(b []byte, i int) bool {
-			_, c := xnet.Pair()
-			if !class.Segmented {
-				c.SetReadPlan(nil, fixedEnd, false)
-			}
-			c.Inject(b)
-			c.EndInput()
-			req, err := server.HandleStream(c, nop)
-			return err == nil && !req.Addr.Equals(sstcp.FallbackAddr) && req.Addr.Equals(p.target(i))
-		}
-		already := make([]bool, m)
-		for i := range wire {
-			if pre>>i&1 == 1 {
-				if !present(wire[i], i) {
-					rt.Fatalf("SIG=%s request %d refused on its first, sequential presentation (class %v)", sigRefused, i, class)
+			p := plan{Class: class, Seed: seed}
+			wire := make([][]byte, m)
+			for i := range wire {
+				_, link, err := w.Dial(p.target(i), sstcp.Bytes(i*7, seed+uint64(i)))
+				if err != nil {
+					failCase("SIG=%s dial: %v", sigHarness, err)
 				}
-				already[i] = true
+				s, ok := w.Relay(sstcp.Join(link.C.Written()))
+				if !ok {
+					failCase("SIG=%s relay refused a genuine request", sigHarness)
+				}
+				wire[i] = s
 			}
-		}
-		succ := make([][]bool, m)
-		forgedOK := make([][]bool, m)
-		start := make(chan struct{})
-		var wg sync.WaitGroup
-		for i := range wire {
-			succ[i] = make([]bool, k)
-			forgedOK[i] = make([]bool, forged)
-			for j := 0; j < k; j++ {
-				wg.Go(func() {
-					<-start
-					succ[i][j] = present(wire[i], i)
-				})
+			fixedEnd := w.ServerFixedEnd()
+			server := w.NewServer()
+			present := func(b []byte, i int) bool {
+				_, c := xnet.Pair()
+				if !class.Segmented {
+					c.SetReadPlan(nil, fixedEnd, false)
+				}
+				c.Inject(b)
+				c.EndInput()
+				req, err := server.HandleStream(c, nop)
+				return err == nil && !req.Addr.Equals(sstcp.FallbackAddr) && req.Addr.Equals(p.target(i))
 			}
-			for j := 0; j < forged; j++ {
-				b := append([]byte(nil), wire[i]...)
-				b[fixedEnd-1-j] ^= 0x40 // tag of the fixed-length header
-				wg.Go(func() {
-					<-start
-					forgedOK[i][j] = present(b, i)
-				})
-			}
-		}
-		close(start)
-		wg.Wait()
-		for i := range wire {
-			n := 0
-			for _, ok := range succ[i] {
-				if ok {
-					n++
+			already := make([]bool, m)
+			for i := range wire {
+				if pre>>i&1 == 1 {
+					if !present(wire[i], i) {
+						failCase("SIG=%s request %d refused on its first, sequential presentation (class %v)", sigRefused, i, class)
+					}
+					already[i] = true
 				}
 			}
-			for _, ok := range forgedOK[i] {
-				if ok {
-					rt.Fatalf("SIG=%s forged copy of request %d accepted (class %v)", sigForged, i, class)
+			succ := make([][]bool, m)
+			forgedOK := make([][]bool, m)
+			start := make(chan struct{})
+			var wg sync.WaitGroup
+			for i := range wire {
+				succ[i] = make([]bool, k)
+				forgedOK[i] = make([]bool, forged)
+				for j := 0; j < k; j++ {
+					wg.Go(func() {
+						<-start
+						succ[i][j] = present(wire[i], i)
+					})
+				}
+				for j := 0; j < forged; j++ {
+					b := append([]byte(nil), wire[i]...)
+					b[fixedEnd-1-j] ^= 0x40 // tag of the fixed-length header
+					wg.Go(func() {
+						<-start
+						forgedOK[i][j] = present(b, i)
+					})
 				}
 			}
-			switch {
-			case already[i] && n > 0:
-				rt.Fatalf("SIG=C03/replay-accepted-concurrently-after-accept request %d was accepted sequentially and %d of %d concurrent copies were accepted again (class %v, m=%d)", i, n, k, class, m)
-			case !already[i] && n > 1:
-				rt.Fatalf("SIG=%s %d of %d concurrent copies of request %d accepted (class %v, m=%d)", sigConcDup, n, k, i, class, m)
-			case !already[i] && n == 0:
-				rt.Fatalf("SIG=%s none of %d concurrent copies of fresh request %d accepted (class %v, m=%d, forged=%d)", sigConcNone, k, i, class, m, forged)
+			close(start)
+			wg.Wait()
+			for i := range wire {
+				n := 0
+				for _, ok := range succ[i] {
+					if ok {
+						n++
+					}
+				}
+				for _, ok := range forgedOK[i] {
+					if ok {
+						failCase("SIG=%s forged copy of request %d accepted (class %v)", sigForged, i, class)
+					}
+				}
+				switch {
+				case already[i] && n > 0:
+					failCase("SIG=C03/replay-accepted-concurrently-after-accept request %d was accepted sequentially and %d of %d concurrent copies were accepted again (class %v, m=%d)", i, n, k, class, m)
+				case !already[i] && n > 1:
+					failCase("SIG=%s %d of %d concurrent copies of request %d accepted (class %v, m=%d)", sigConcDup, n, k, i, class, m)
+				case !already[i] && n == 0:
+					failCase("SIG=%s none of %d concurrent copies of fresh request %d accepted (class %v, m=%d, forged=%d)", sigConcNone, k, i, class, m, forged)
+				}
 			}
+			var labels []string
+			if k >= 8 {
+				labels = append(labels, "k>=8")
+			}
+			if pre != 0 {
+				labels = append(labels, "pre-presented")
+			}
+			if forged > 0 {
+				labels = append(labels, "with-forged")
+			}
+			recConc.Case(fmt.Sprintf("%v|%d|%d|%d", class, m, k, pre), true, labels...)
+			recConc.Sample(map[string]any{"class": class.String(), "requests": m, "copies": k, "pre_presented_mask": pre, "forged_per_request": forged})
+		}); v != "" {
+			rt.Fatalf("%s", v)
 		}
-		var labels []string
-		if k >= 8 {
-			labels = append(labels, "k>=8")
-		}
-		if pre != 0 {
-			labels = append(labels, "pre-presented")
-		}
-		if forged > 0 {
-			labels = append(labels, "with-forged")
-		}
-		recConc.Case(fmt.Sprintf("%v|%d|%d|%d", class, m, k, pre), true, labels...)
-		recConc.Sample(map[string]any{"class": class.String(), "requests": m, "copies": k, "pre_presented_mask": pre, "forged_per_request": forged})
 	})
 }
